@@ -959,6 +959,9 @@ func (in *Interp) callFn(fv FuncV, args []Value, g *Term, st *MState, depth int)
 		bound := in.maxUnroll
 		if in.isHarnessFn(fn) {
 			bound = 64
+			if in.maxUnroll > bound {
+				bound = in.maxUnroll // jobs with a large unrolling (large concrete payloads) loop as long in the harness
+			}
 		}
 		overflow := visits[b] > bound
 		act := &Act{in: in, fn: fn, env: mergeEnvs(gs, envs), st: in.mergeStates(gs, sts), g: bg, bind: fv.bind, block: b, depth: depth, defers: ins[0].defers}
